@@ -1081,6 +1081,31 @@ fn startup_mode(out: &mut Out, work: &str, exe: &Path) {
 	let gen_path = format!("{}/blocks/genesis.bin", work);
 	write_block(&gen_path, &kit.genesis);
 	out.raw("crash reset");
+	for r in &kit.blks {
+		out.raw(&kit.blk_line(r.id).replacen("chain blk", "crash blk", 1));
+	}
+	// the recorded instances of known finding C09-genesis-install-window (19 of the 47 crash points)
+	const RECORDED: [&str; 19] = [
+		"aof.flush:after-append[header_head/pmmr_hash.bin]",
+		"aof.flush:after-sync[header_head/pmmr_hash.bin]",
+		"aof.flush:before-append[header_head/pmmr_data.bin]",
+		"aof.flush:after-append[output/pmmr_hash.bin]",
+		"aof.flush:after-sync[output/pmmr_hash.bin]",
+		"aof.flush:before-append[output/pmmr_data.bin]",
+		"aof.flush:after-append[output/pmmr_data.bin]",
+		"aof.flush:after-sync[output/pmmr_data.bin]",
+		"tmpfile:before-rename[output/pmmr_leaf.bin]",
+		"tmpfile:after-rename[output/pmmr_leaf.bin]",
+		"tmpfile:before-rename[output/pmmr_prun.bin]",
+		"tmpfile:after-rename[output/pmmr_prun.bin]",
+		"aof.flush:before-append[rangeproof/pmmr_hash.bin]",
+		"aof.flush:after-append[kernel/pmmr_hash.bin]",
+		"aof.flush:after-sync[kernel/pmmr_hash.bin]",
+		"aof.flush:before-append[kernel/pmmr_size.bin]",
+		"aof.flush:after-append[kernel/pmmr_size.bin]",
+		"aof.flush:after-sync[kernel/pmmr_size.bin]",
+		"aof.flush:before-append[kernel/pmmr_data.bin]",
+	];
 	let describe = |dir: &str, kit: &Kit| -> String {
 		let g = kit.genesis.clone();
 		let d = dir.to_string();
@@ -1112,19 +1137,64 @@ fn startup_mode(out: &mut Out, work: &str, exe: &Path) {
 		let first = describe(&dir, &kit);
 		let labels = qualify(verif_hooks::take_log());
 		let again = describe(&dir, &kit);
-		out.line("crash startup empty", &format!("{} ;; again {}", first, again));
+		out.line(&format!("crash startup steps {}", labels.join(",")), "ok");
+		out.line("crash startup empty first", &first);
+		out.line("crash startup empty again", &again);
+		let mut probes = 0u64;
 		for m in 1..=labels.len() {
 			let d = format!("{}/st-empty-{}", work, m);
 			std::fs::create_dir_all(&d).unwrap();
 			let code = Command::new(exe).args(["reopen", &d, &gen_path, &m.to_string()]).status().unwrap().code().unwrap_or(-1);
-			let r = describe(&d, &kit);
-			out.line(&format!("crash startup empty-killed {} {}", m, labels[m - 1]), &format!("exit={} {}", code, r));
-			if !r.starts_with("open=ok head=b0 hhead=b0 validate=ok") {
-				out.raw(&format!("#ORACLE-FAIL C09 startup: first start on an empty directory killed at {}/{} {} :: {}", m, labels.len(), labels[m - 1], r));
+			let mut r = describe(&d, &kit);
+			// the node must also be able to go on: the trunk is delivered to it
+			if r.starts_with("open=ok") {
+				let g = kit.genesis.clone();
+				let d2 = d.clone();
+				let kit_ref = &kit;
+				let trunk_ref = &trunk;
+				let fin = match catch(std::panic::AssertUnwindSafe(move || {
+					let c = init_chain(&d2, g)?;
+					let mut firsterr = String::new();
+					for i in &trunk_ref[1..] {
+						if let Err(e) = c.process_block(kit_ref.blks[*i].block.clone(), grin_chain::Options::SKIP_POW) {
+							if firsterr.is_empty() {
+								firsterr = format!("b{}:{}", i, error_class(&e));
+							}
+						}
+					}
+					let s = snap(&c, kit_ref);
+					Ok::<String, grin_chain::Error>(format!("head={} first_err={}", s.head, if firsterr.is_empty() { "-".to_string() } else { firsterr }))
+				})) {
+					Ok(Ok(x)) => x,
+					Ok(Err(e)) => format!("reopen-err:{}", error_class(&e)),
+					Err(_) => "panic".to_string(),
+				};
+				r = format!("{} sync:{}", r, fin);
+			}
+			out.line(&format!("crash startup empty-killed {} {}", m, labels[m - 1]), &r);
+			if code != 86 {
+				out.raw(&format!("#ORACLE-FAIL C09 harness: first-start child did not die at the armed step m={} exit={}", m, code));
+			}
+			let good = r.starts_with("open=ok head=b0 hhead=b0 validate=ok") && r.contains(&format!("sync:head=b{} first_err=-", tip));
+			let bare = labels[m - 1].split("(after:").next().unwrap_or("").to_string();
+			let recorded = RECORDED.contains(&bare.as_str());
+			if !good {
+				let text = format!(
+					"C09 startup scenario=first-start step={}/{} label={} :: {}",
+					m, labels.len(), labels[m - 1], r.chars().take(200).collect::<String>()
+				);
+				if recorded {
+					probes += 1;
+					out.raw(&format!("#KNOWN-PROBE {}", text));
+				} else {
+					out.raw(&format!("#ORACLE-FAIL {}", text));
+				}
+			} else if recorded {
+				out.raw(&format!("#STAT startup: recorded instance {} of C09-genesis-install-window did not fail", labels[m - 1]));
 			}
 			let _ = std::fs::remove_dir_all(&d);
 		}
-		out.raw(&format!("#STAT startup empty: crash points of the first start={}", labels.len()));
+		out.raw(&format!("#STAT startup empty: crash points of the first start={} recorded_instances_reproduced={}", labels.len(), probes));
 	}
 	// ---- head in the database, txhashset directory missing ----
 	{
@@ -1133,7 +1203,9 @@ fn startup_mode(out: &mut Out, work: &str, exe: &Path) {
 		let _ = std::fs::remove_dir_all(format!("{}/txhashset", dir));
 		let first = describe(&dir, &kit);
 		let again = describe(&dir, &kit);
-		out.line(&format!("crash startup no-txhashset b{}", tip), &format!("{} ;; again {}", first, again));
+		out.line(&format!("crash startup no-txhashset b{}", tip), &first);
+		// not a crash (the directory was removed by hand): observation only
+		out.raw(&format!("#STAT startup no-txhashset: first start: {} ;; clean stop, second start: {}", first, again));
 	}
 	// ---- PIBD head marker above the body head ----
 	{
@@ -1152,7 +1224,8 @@ fn startup_mode(out: &mut Out, work: &str, exe: &Path) {
 		}
 		let first = describe(&dir, &kit);
 		let again = describe(&dir, &kit);
-		out.line(&format!("crash startup pibd-marker b{} b{}", trunk[trunk.len() - 4], tip), &format!("{} ;; again {}", first, again));
+		out.line(&format!("crash startup pibd-marker b{} b{}", trunk[trunk.len() - 4], tip), &first);
+		out.line(&format!("crash startup pibd-marker b{} b{}", trunk[trunk.len() - 4], tip), &again);
 	}
 	out.flush();
 }
